@@ -68,14 +68,14 @@ Ltac aj_norm :=
 
 Lemma at_jdn_julian j : in_i32 j -> Calendar_at_jdn (cal_of CJ) j = Ret (date_of CJ j).
 Proof.
-  intros Hj. unfold Calendar_at_jdn. change (Calendar_f_0 (cal_of CJ)) with inner_Calendar_Julian.
+  intros Hj. unfold Calendar_at_jdn. autounfold with gen_new. change (Calendar_f_0 (cal_of CJ)) with inner_Calendar_Julian.
   pose proof (i32_year_j j Hj) as Hy. pose proof (ordinal_bound CJ j I) as OB.
   assert (OE : ordinal_of CJ j = j - J0 (jyear j) + 1) by reflexivity. rewrite OE in OB.
   aj_norm. apply at_jdn_tail; [exact I|exact Hj|rewrite lbl_year; reflexivity|reflexivity].
 Qed.
 Lemma at_jdn_gregorian j : in_i32 j -> Calendar_at_jdn (cal_of CG) j = Ret (date_of CG j).
 Proof.
-  intros Hj. unfold Calendar_at_jdn. change (Calendar_f_0 (cal_of CG)) with inner_Calendar_Gregorian.
+  intros Hj. unfold Calendar_at_jdn. autounfold with gen_new. change (Calendar_f_0 (cal_of CG)) with inner_Calendar_Gregorian.
   pose proof (i32_year_g j Hj) as Hy. pose proof (ordinal_bound CG j I) as OB.
   assert (OE : ordinal_of CG j = j - G0 (gyear j) + 1) by (unfold ordinal_of; cbn [is_old old_days new_start]; lia). rewrite OE in OB.
   aj_norm. apply at_jdn_tail; [exact I|exact Hj|rewrite lbl_year; reflexivity|rewrite OE; reflexivity].
@@ -99,12 +99,13 @@ Section Reforming.
 
   Lemma at_jdn_reforming j : in_i32 j -> Calendar_at_jdn K j = Ret (date_of (CR r) j).
   Proof.
-    intros Hj. unfold Calendar_at_jdn.
+    intros Hj. unfold Calendar_at_jdn. autounfold with gen_new.
     pose proof (r_year_bounds _ _ _ _ _ _ _ GI) as [[A B] [C D]]. pose proof (py_le_qy _ _ _ _ _ _ _ GI) as PQ.
     pose proof (old_days_eq _ _ _ _ _ _ _ GI) as OD.
     assert (EK : K = cal_of (CR r)) by (symmetry; apply cal_of_CR; exact GI).
     change (Calendar_gap K) with (@Ret (option inner_ReformGap) (Some (the_gap r py pm pd qy qm qd))).
-    unfold K at 1 2. cbn [rcal Calendar_f_0]. fold K. rewrite EK. unfold the_gap.
+    assert (F0 : Calendar_f_0 K = inner_Calendar_Reforming r (the_gap r py pm pd qy qm qd)) by reflexivity.
+    rewrite ?F0. clear F0. rewrite EK. unfold the_gap.
     pose proof (ordinal_bound (CR r) j VR) as OB.
     pose proof (i32_year_j j Hj) as HyJ. pose proof (i32_year_g j Hj) as HyG.
     destruct (Z.ltb_spec j r) as [Old|New].
